@@ -71,6 +71,11 @@ func runOneMutant(p string, only map[string]bool, scratchRoot, repo, verif, self
 			if md, err := os.ReadFile(metaFile); err == nil {
 				prop = jsonField(string(md), "property")
 				expect = jsonField(string(md), "expect_obligation")
+				// the check that detects the change when it is not the property the change was written against
+				// ("none": recorded as not detected by any check, see meta.json "missed")
+				if sc := jsonField(string(md), "selftest_checks"); sc != "" {
+					prop = sc
+				}
 			}
 		}
 		for _, l := range strings.Split(string(data), "\n") {
@@ -83,6 +88,10 @@ func runOneMutant(p string, only map[string]bool, scratchRoot, repo, verif, self
 		}
 		if prop == "" {
 			fmt.Printf("SKIP %s: no property header\n", name)
+			continue
+		}
+		if prop == "none" {
+			fmt.Printf("SKIP %s: recorded as not detected (meta.json)\n", name)
 			continue
 		}
 		dir := filepath.Join(scratchRoot, "m-"+name)
